@@ -703,6 +703,14 @@ def run(ctx: core.Ctx) -> int:
                         if nm in ("model_validation", "_generate_model_function_bodies", "_generate_ekf_function_bodies"):
                             idx_val.append(idx)
             ok = idx_out is not None and idx_val and max(idx_val) < idx_out
+            if idx_out is not None and idx_val and max(idx_val) == idx_out:
+                # same statement: the validating / constructing calls are arguments of the output call, hence evaluated before it
+                outc = next(c for c in ast.walk(fn.body[idx_out]) if isinstance(c, ast.Call) and (c.func.id if isinstance(c.func, ast.Name) else
+                                                                                                   getattr(c.func, "attr", "")) == "_compile_impl")
+                inside = {id(x) for a_ in list(outc.args) + [k_.value for k_ in outc.keywords] for x in ast.walk(a_)}
+                vals = [c for c in ast.walk(fn.body[idx_out]) if isinstance(c, ast.Call) and (c.func.id if isinstance(c.func, ast.Name) else getattr(c.func, "attr", ""))
+                        in ("model_validation", "_generate_model_function_bodies", "_generate_ekf_function_bodies")]
+                ok = all(id(c) in inside for c in vals)
             ctx.oblige("ORDER", ent, f"validation statements {idx_val} precede output statement {idx_out}", ok, file=FILES[mod], func=name,
                        construct="validation before output", msg=f"{ent}: the files are written before validation / construction has finished")
     ctx.floor("GUARDS", all_guards, 14, "raise-guards examined on the entry points' paths")
